@@ -95,9 +95,14 @@ func peerDial(tr *vtrace.T, rows []peerRow) {
 			go func() {
 				buf := make([]byte, 2048)
 				for {
-					_, _, err := o.c.ReadFromUDP(buf)
+					n, _, err := o.c.ReadFromUDP(buf)
 					if err != nil {
 						return
+					}
+					// only the first flight of a QUIC handshake counts (long header, padded to 1200 octets): the
+					// sandbox's resolver address is 127.0.0.1:53, any process looking a name up writes there
+					if n < 1000 || buf[0]&0x80 == 0 {
+						continue
 					}
 					obsMu.Lock()
 					seenUDP[fmt.Sprintf("%s|%d", o.ip, o.p)]++
@@ -152,6 +157,18 @@ func peerDial(tr *vtrace.T, rows []peerRow) {
 			continue
 		}
 		exchangeOnce(u, 250*time.Millisecond)
+		if leg := upstream.VerifTCPLeg(u); leg != nil {
+			// a plain (UDP) upstream has a second leg, the TCP fall-back for truncated replies: it is configured
+			// from the same address form, so its dial goes to the same place
+			q := new(dns.Msg)
+			q.SetQuestion("peer.test.", dns.TypeA)
+			w, _ := q.Pack()
+			ctx, cancel := context.WithTimeout(context.Background(), 250*time.Millisecond)
+			if r, _ := leg.ExchangeContext(ctx, w); r != nil {
+				dnsmsg.ReleaseMsg(r)
+			}
+			cancel()
+		}
 		if quicLike {
 			time.Sleep(30 * time.Millisecond)
 		}
